@@ -146,6 +146,33 @@ def random_case(rng, max_rows=30, max_feat=12, max_prot=6, nrows=None):
             "text": to_text(lines, nl)}
 
 
+def const_width_case(rng, nrows, width):
+    """a long text whose data lines all have exactly `width` characters (line break included): the line breaks then fall on every
+    multiple of `width` -- on 65 536, 131 072, ... in particular (anything that reads the file in blocks of 2**k characters)"""
+    c = None
+    nfeat, ncol = 2, 7
+    prots = [int(v) for v in rng.integers(1, 3, nrows)]
+    salt = int(rng.integers(0, 1000))
+    base = plain_cell(nfeat)
+
+    def cell(i, j):
+        if 4 <= j <= nfeat + 3:
+            return "%d.%04d" % (i * j + salt, (i * 131 + j * 7) % 10000)
+        return base(i, j)
+
+    def prot(i, m):
+        return "sp|P%05d|G%d_%d_HUMAN" % (salt * 7 + i, i, m)
+
+    lines = render_lines(nfeat, ncol, "none", prots, cell, prot)
+    for l in lines[1:]:
+        ln = sum(len(f) for f in l) + len(l)           # fields + separators + line break
+        if ln > width:
+            raise MachineryError("constant-width case: a line is longer than %d characters" % width)
+        l[3] = l[3] + "0" * (width - ln)                # trailing zeros of the first feature value
+    return {"source": "random-constwidth", "nfeat": nfeat, "ppos": ncol, "dd": "none", "nl": True, "prots": prots,
+            "text": to_text(lines, True)}
+
+
 def ood_cases():
     """Texts outside the statement's domain: accepted vacuously by the Domain guard of the acceptor."""
     out = []
@@ -375,6 +402,9 @@ def run(ctx):
     # long files (anything that buffers or batches lines shows only beyond its batch size)
     for nrows in ([999, 1000, 1001, 1002, 2001] if ctx.quick else [999, 1000, 1001, 1002, 1003, 2000, 2001, 2002, 4100, 8200]):
         cases.append(random_case(rng, max_feat=3, max_prot=3, nrows=nrows))
+    # ... and long files whose lines all have the same width (128 characters): more than 2 x 65 536 characters
+    for nrows in ([1100] if ctx.quick else [1100, 2100, 4200]):
+        cases.append(const_width_case(rng, nrows, 128))
     cases.extend(ood_cases())
     cases.extend(valid_cases("PinValid_gen.cfg" if ctx.quick else "PinValid_gen4.cfg"))
     # the protein separator is a parameter of the API (the CLI uses ":"): rotate it over the cases
